@@ -69,6 +69,7 @@ func (c13) Run(c core.Case, w *core.Worker) core.Result {
 	curKind := "open"
 	var writes []c13Write
 	violated := false
+	pendingSum := int64(0) // unflushed Put/Delete bytes at the last API return (Threshold)
 	inDir := func(p string) bool { return filepath.Dir(p) == dir }
 	fail := func(rule, msg string) {
 		if violated {
@@ -136,6 +137,10 @@ func (c13) Run(c core.Case, w *core.Worker) core.Result {
 					if sum > 0 {
 						res.Add("threshold_returns_with_pending_bytes", 1)
 					}
+					if sum == int64(sc.Cfg.BytesPerSync)-1 || sum == 0 {
+						res.Add("threshold_edge_returns", 1)
+					}
+					pendingSum = sum
 				}
 			case "batch":
 				if cur.BSync {
@@ -198,6 +203,23 @@ func (c13) Run(c core.Case, w *core.Worker) core.Result {
 			}
 			res.Add("restarts", 1)
 			continue
+		}
+		if sc.Cfg.Sync == 2 && sc.Cfg.BytesPerSync > 1 && r.Chance(1, 3) {
+			// aim the cumulative unflushed size exactly at the threshold (and one below / above)
+			want := int64(sc.Cfg.BytesPerSync) - pendingSum + int64(r.Range(-1, 1))
+			k := g.Key()
+			if want >= int64(12+len(k)) && want < 60<<10 {
+				for v := int(want) - 40 - len(k); v <= int(want); v++ {
+					if v < 0 {
+						continue
+					}
+					if _, _, size := vfmt.Layout(io.ActiveEnd(), vfmt.EncodedLen(len(k), v, 0)); size == want {
+						op = core.Op{Kind: "put", Key: k, VLen: v, VSeed: r.U64()}
+						res.Add("threshold_aimed_puts", 1)
+						break
+					}
+				}
+			}
 		}
 		cur = op
 		curKind = op.Kind
